@@ -112,6 +112,33 @@ var genBytes = func() []byte {
 
 var infBytes = make([]byte, 64)
 
+var g2BaseTok = hx.Hex(bn.GetG2Base().Marshal())
+
+// signGen is what model.GroupSignGenerator and (through the hook) logical.groupSignGenerator offer.
+type signGen interface {
+	AddWitnessSign(id groupsig.ID, sig groupsig.Signature) (bool, bool)
+	GetGroupSign() groupsig.Signature
+}
+
+// lgenNew is set by lgen_hook.go when the harness is built with tag c13lgen.
+var lgenNew func(k int) signGen
+
+// g2Of: `00` is the one-byte encoding of infinity; otherwise the 128-byte form.
+func g2Of(tok string) *bn.G2 {
+	b, err := hx.UnHex(tok)
+	if err != nil {
+		return nil
+	}
+	if len(b) == 1 && b[0] == 0 {
+		return new(bn.G2).ScalarBaseMult(big.NewInt(0))
+	}
+	g := new(bn.G2)
+	if _, e := g.Unmarshal(b); e != nil {
+		return nil
+	}
+	return g
+}
+
 func hasDup(xs []*big.Int) bool {
 	for i := range xs {
 		for j := 0; j < i; j++ {
@@ -306,10 +333,55 @@ func execOp(line string) string {
 		}
 		s := groupsig.RecoverGroupSignature(m, k)
 		return "ok " + sigTok(s)
-	case "gen":
+	case "g2add", "g2mul":
+		if len(w) != 3 {
+			return "bad-op"
+		}
+		a := g2Of(w[1])
+		if a == nil {
+			return "bad-op"
+		}
+		if w[0] == "g2add" {
+			b := g2Of(w[2])
+			if b == nil {
+				return "bad-op"
+			}
+			return hx.Hex(new(bn.G2).Add(a, b).Marshal())
+		}
+		k, ok := tokNat(w[2])
+		if !ok {
+			return "bad-op"
+		}
+		return hx.Hex(new(bn.G2).ScalarMult(a, k).Marshal())
+	case "aggpk":
+		// aggpk <g2base> <k1> ... : AggregatePubkeys of GeneratePubkey(k_i)
+		if len(w) < 2 {
+			return "bad-op"
+		}
+		if w[1] != g2BaseTok {
+			return "base-mismatch"
+		}
+		pubs := make([]groupsig.Pubkey, 0)
+		for _, t := range w[2:] {
+			c, ok := tokNat(t)
+			if !ok {
+				return "bad-op"
+			}
+			pubs = append(pubs, *groupsig.GeneratePubkey(secOf(c)))
+		}
+		pk := groupsig.AggregatePubkeys(pubs)
+		if pk == nil {
+			return "nil"
+		}
+		return "ok " + hx.Hex(pk.Serialize())
+	case "gen", "lgen":
 		// gen <k> <js|-> <id> <sig> ... : feed model.GroupSignGenerator in this order
+		// lgen: the same on the unexported twin logical.groupSignGenerator (needs the c13lgen hook)
 		if len(w) < 3 || (len(w)-3)%2 != 0 {
 			return "bad-op"
+		}
+		if w[0] == "lgen" && lgenNew == nil {
+			return "no-hook"
 		}
 		k, ok := tokDec(w[1])
 		if !ok {
@@ -331,7 +403,10 @@ func execOp(line string) string {
 			}
 			arrs = append(arrs, arrival{idOf(x), *groupsig.DeserializeSign(sb)})
 		}
-		gsg := model.NewGroupSignGenerator(k)
+		var gsg signGen = model.NewGroupSignGenerator(k)
+		if w[0] == "lgen" {
+			gsg = lgenNew(k)
+		}
 		flags := make([]string, 0)
 		b2 := func(b bool) string {
 			if b {
@@ -421,6 +496,7 @@ type dkgObs struct {
 	GpkAgree    bool
 	First, All  string
 	Direct      string
+	Twin        string // group signature held by logical.groupSignGenerator ("" when the hook is absent)
 }
 
 // guardP: like hx.Guard but without the runtime's panic text (embedded in a longer answer).
@@ -433,20 +509,26 @@ func guardP(f func() string) string {
 }
 
 func execDkg(w []string, obs *dkgObs) string {
-	if len(w) < 8 {
+	if len(w) < 9 {
 		return "bad-op"
 	}
 	msg, e1 := hx.UnHex(w[1])
 	gh, e2 := hx.UnHex(w[2])
 	hm, e3 := hx.UnHex(w[3])
-	k, o1 := tokDec(w[4])
-	n, o2 := tokDec(w[5])
-	m, o3 := tokDec(w[6])
-	_, o4 := tokDecs(w[7])
+	if g2Of(w[4]) == nil {
+		return "bad-op"
+	}
+	k, o1 := tokDec(w[5])
+	n, o2 := tokDec(w[6])
+	m, o3 := tokDec(w[7])
+	_, o4 := tokDecs(w[8])
 	if e1 != nil || e2 != nil || e3 != nil || !o1 || !o2 || !o3 || !o4 || k == 0 || n == 0 {
 		return "bad-op"
 	}
-	rest := w[8:]
+	if w[4] != g2BaseTok {
+		return "base-mismatch"
+	}
+	rest := w[9:]
 	if len(rest) != n+n+n*k+m {
 		return "bad-op"
 	}
@@ -531,6 +613,14 @@ func execDkg(w []string, obs *dkgObs) string {
 	}
 	if obs != nil {
 		obs.First, obs.All, obs.Direct = first, allS, sigTok(&direct)
+		if lgenNew != nil && m >= k {
+			tw := lgenNew(k)
+			for _, a := range arr {
+				tw.AddWitnessSign(d.ids[a], shares[a])
+			}
+			ts := tw.GetGroupSign()
+			obs.Twin = "ok " + sigTok(&ts)
+		}
 		obs.GpkAgree = true
 		for j := 0; j < n; j++ {
 			pk := groupsig.GeneratePubkey(d.msk[j])
@@ -548,7 +638,7 @@ func execDkg(w []string, obs *dkgObs) string {
 			obs.GroupVerify = gen.VerifyGroupSign(d.gpk[0], msg) && groupsig.VerifySig(d.gpk[0], msg, gs)
 		}
 	}
-	return strings.Join(msks, ",") + " " + secTok(gsk) + " " + first + " " + allS + " " + sigTok(&direct)
+	return strings.Join(msks, ",") + " " + secTok(gsk) + " " + first + " " + allS + " " + sigTok(&direct) + " " + hx.Hex(d.gpk[0].Serialize())
 }
 
 // ---------------------------------------------------------------------------
@@ -900,6 +990,41 @@ func (g *gen) genRecover(n int) {
 	}
 }
 
+// G2: scalar multiples of the generator, sums, and AggregatePubkeys of GeneratePubkey(k_i)
+func (g *gen) genG2(n int) {
+	pt := func() string {
+		if g.r.Chance(1, 8) {
+			return "00"
+		}
+		return hx.Hex(new(bn.G2).ScalarBaseMult(g.scalar()).Marshal())
+	}
+	for i := 0; i < n; i++ {
+		switch g.r.Intn(4) {
+		case 0:
+			g.emit("g2mul " + pt() + " " + natTok(g.scalar()))
+		case 1:
+			p := pt()
+			q := pt()
+			switch g.r.Intn(4) {
+			case 0:
+				q = p
+			case 1:
+				if pp := g2Of(p); pp != nil {
+					q = hx.Hex(new(bn.G2).Neg(pp).Marshal())
+				}
+			}
+			g.emit("g2add " + p + " " + q)
+		default:
+			ns := g.r.Pick(0, 1, 2, 3, 5, 10)
+			cs := make([]*big.Int, ns)
+			for j := range cs {
+				cs[j] = g.scalar()
+			}
+			g.emit(strings.TrimSpace("aggpk " + g2BaseTok + " " + toks(cs)))
+		}
+	}
+}
+
 // arrival sequences for GroupSignGenerator: honest shares, repeated senders, late arrivals
 func (g *gen) genSignGen(n int) {
 	for i := 0; i < n; i++ {
@@ -942,9 +1067,17 @@ func (g *gen) genSignGen(n int) {
 		}
 		g.count("gen." + kind + " ids=" + cl)
 		g.emit(strings.TrimSpace("gen " + strconv.Itoa(k) + " - " + interleave(sid, ssig)))
+		if lgenNew != nil {
+			g.count("lgen." + kind)
+			g.emit(strings.TrimSpace("lgen " + strconv.Itoa(k) + " - " + interleave(sid, ssig)))
+		}
 	}
 	g.emit("gen 0 -")
 	g.emit("gen 0 - 01 " + hx.Hex(genBytes))
+	if lgenNew != nil {
+		g.emit("lgen 0 -")
+		g.emit("lgen 0 - 01 " + hx.Hex(genBytes))
+	}
 }
 
 func collides(ids []*big.Int) bool {
@@ -994,7 +1127,7 @@ func (g *gen) dkgLineIds(n int, cl string, arrivals func(k int) []int, idsOut *[
 		// Go code draws (the known finding), so only the deterministic case m = k is compared
 		arr = arr[:d.k]
 	}
-	w := []string{"dkg", hx.Hex(msg), hx.Hex(gh), hx.Hex(hashPoint(msg)), strconv.Itoa(d.k), strconv.Itoa(n), strconv.Itoa(len(arr)), g.jsFor(len(arr), d.k)}
+	w := []string{"dkg", hx.Hex(msg), hx.Hex(gh), hx.Hex(hashPoint(msg)), g2BaseTok, strconv.Itoa(d.k), strconv.Itoa(n), strconv.Itoa(len(arr)), g.jsFor(len(arr), d.k)}
 	for _, s := range seeds {
 		w = append(w, hx.Hex(s))
 	}
@@ -1116,10 +1249,10 @@ func search(r *hx.Rng, thorough bool, hintLines []string) searchOut {
 		// classify by the ids actually on the line (several generator classes can produce
 		// two ids congruent modulo the group order, e.g. 0 and r)
 		keySuffix := ""
-		if w := strings.Fields(line); len(w) > 8 {
-			if n, ok := tokDec(w[5]); ok && len(w) >= 8+2*n {
+		if w := strings.Fields(line); len(w) > 9 {
+			if n, ok := tokDec(w[6]); ok && len(w) >= 9+2*n {
 				var ids []*big.Int
-				for _, t := range w[8+n : 8+2*n] {
+				for _, t := range w[9+n : 9+2*n] {
 					if x, ok := tokNat(t); ok {
 						ids = append(ids, x)
 					}
@@ -1134,6 +1267,15 @@ func search(r *hx.Rng, thorough bool, hintLines []string) searchOut {
 			addV("dkg-run-failed"+keySuffix, "DKG/recovery did not complete: "+trunc(ans, 200), line)
 			return
 		}
+		// observation, not a C13 violation: a member key equal to the group secret (id = 0 mod r)
+		if f := strings.Fields(ans); len(f) >= 2 {
+			for _, mk := range strings.Split(f[0], ",") {
+				if mk == f[1] {
+					so.Dist["observation.member-key-equals-group-secret (id = 0 mod r, outside C13)"]++
+					break
+				}
+			}
+		}
 		for j, ok := range obs.ShareVerify {
 			if !ok {
 				addV("share-does-not-verify"+keySuffix, fmt.Sprintf("member %d: signature share fails VerifySig under its public share", j), line)
@@ -1145,6 +1287,9 @@ func search(r *hx.Rng, thorough bool, hintLines []string) searchOut {
 		}
 		if !obs.GroupVerify {
 			addV("group-signature-invalid"+keySuffix, "recovered group signature fails VerifySig under the group public key", line)
+		}
+		if obs.Twin != "" && obs.Twin != "ok "+obs.Direct {
+			addV("round-generator-signature-differs"+keySuffix, "logical.groupSignGenerator (the generator round1 uses) holds a signature different from Sign(group secret): "+trunc(obs.Twin, 40)+" direct="+trunc(obs.Direct, 40), line)
 		}
 		if obs.First != "ok "+obs.Direct || obs.All != "ok "+obs.Direct {
 			addV("subset-dependent-signature"+keySuffix, "recovered signature differs between subsets / from Sign(group secret): first-k="+trunc(obs.First, 40)+" all="+trunc(obs.All, 40)+" direct="+trunc(obs.Direct, 40), line)
@@ -1225,7 +1370,7 @@ func search(r *hx.Rng, thorough bool, hintLines []string) searchOut {
 			}
 			w := strings.Fields(base0)
 			// replace arrival part
-			m0, _ := strconv.Atoi(w[6])
+			m0, _ := strconv.Atoi(w[7])
 			w = w[:len(w)-m0]
 			for rep := 0; rep < 2; rep++ {
 				arr := append([]int{}, sel...)
@@ -1235,8 +1380,8 @@ func search(r *hx.Rng, thorough bool, hintLines []string) searchOut {
 					}
 				}
 				ww := append([]string{}, w...)
-				ww[6] = strconv.Itoa(len(arr))
-				ww[7] = g.jsFor(len(arr), k)
+				ww[7] = strconv.Itoa(len(arr))
+				ww[8] = g.jsFor(len(arr), k)
 				for _, a := range arr {
 					ww = append(ww, strconv.Itoa(a))
 				}
@@ -1350,13 +1495,13 @@ func main() {
 			panic(errS)
 		}
 		msg, _ := hx.UnHex(a["msg"])
-		w := []string{"dkg", hx.Hex(msg), hx.Hex(gh), hx.Hex(hashPoint(msg)), strconv.Itoa(d.k), strconv.Itoa(n), strconv.Itoa(len(arr)), "-"}
+		w := []string{"dkg", hx.Hex(msg), hx.Hex(gh), hx.Hex(hashPoint(msg)), g2BaseTok, strconv.Itoa(d.k), strconv.Itoa(n), strconv.Itoa(len(arr)), "-"}
 		if len(arr) > d.k {
 			js := make([]string, d.k)
 			for i := range js {
 				js[i] = "0"
 			}
-			w[7] = strings.Join(js, ",")
+			w[8] = strings.Join(js, ",")
 		}
 		for _, sd := range seeds {
 			w = append(w, hx.Hex(sd))
@@ -1406,6 +1551,7 @@ func main() {
 	g.genG1(60 * scale)
 	g.genRecover(40 * scale)
 	g.genSignGen(30 * scale)
+	g.genG2(12 * scale)
 	min, max := model.Param.GroupMemberMin, model.Param.GroupMemberMax
 	if thorough {
 		var sizes []int
@@ -1422,6 +1568,6 @@ func main() {
 	}
 	dist, _ := json.Marshal(g.dist)
 	st := out.StatsJSON()
-	st = st[:len(st)-1] + ",\"dist\":" + string(dist) + fmt.Sprintf(",\"param\":{\"min\":%d,\"max\":%d,\"thr\":%d}}", min, max, model.Param.SSSSThreshold)
+	st = st[:len(st)-1] + ",\"dist\":" + string(dist) + fmt.Sprintf(",\"param\":{\"min\":%d,\"max\":%d,\"thr\":%d},\"logical_twin_hook\":%v}", min, max, model.Param.SSSSThreshold, lgenNew != nil)
 	fmt.Println("STATS " + st)
 }
